@@ -20,7 +20,7 @@ from icalendar.timezone import tzp
 
 UTC = timezone.utc
 STARTS = ("absent", "date", "floating", "utc", "zoned-dst", "zoned", "zoned-dateutil", "fixed-offset", "date-subclass", "utc-subclass")
-ENDS = ("absent", "explicit", "dur-days", "dur-time", "dur-zero")
+ENDS = ("absent", "explicit", "dur-days", "dur-time", "dur-zero", "explicit-same")
 TRIGGERS = ("absent", "PT0S", "-PT15M", "PT5H", "-P1D", "P1D", "abs-utc", "abs-zoned", "-P7D", "P14D", "-PT1H0M22S")
 RELATED = (None, "START", "END", "end", "Start")  # unquoted parameter values are case-insensitive
 REPDUR = ((None, None), (0, "PT5M"), (2, "PT5M"), (2, None), (None, "PT5M"), (1, "P1D"), (3, "PT24H"), (2, "PT0S"), (1, "P7D"), (2, "PT45S"), (101, "PT5M"), (250, "PT45S"))
@@ -79,6 +79,9 @@ def build(case):
     if ek == "explicit":
         base = start if start is not None else date(2024, 3, 30)
         end = base + (timedelta(days=2) if M.is_date(base) else timedelta(hours=2))
+        comp.end = end
+    elif ek == "explicit-same":  # an explicit end equal to the start (also for DATE values): it IS the end
+        end = start if start is not None else date(2024, 3, 30)
         comp.end = end
     elif ek == "dur-days":
         dur = timedelta(days=1)
@@ -229,7 +232,7 @@ REDUCED = [(t, r, rd) for t in ("-PT15M", "PT5H", "-P1D", "abs-utc") for r in (N
 
 
 def run(ctx):
-    ctx.rule = ("E-enum: {VEVENT,VTODO} x 10 start kinds (incl. instances of user subclasses of date / datetime) x 5 end kinds (incl. a zero DURATION) x all single alarms TRIGGER(11) x RELATED(5) x "
+    ctx.rule = ("E-enum: {VEVENT,VTODO} x 10 start kinds (incl. instances of user subclasses of date / datetime) x 6 end kinds (incl. a zero DURATION and an explicit end equal to the start) x all single alarms TRIGGER(11) x RELATED(5) x "
                 "(REPEAT,DURATION)(12, incl. REPEAT 101 and 250, a zero DURATION, whole weeks, seconds) x {API-built, parsed, parsed with explicit plus signs on durations, parsed with whole weeks in week form} x {zoneinfo, pytz}; plus all ordered pairs over a reduced menu of "
                 f"{len(REDUCED)} alarm shapes" + ("" if ctx.quick else " and all triples over 8 shapes") +
                 "; E-hist: the alarms of a component handed to the Alarms object after the parent, before it, or partly with it (add_alarm / add_component alternating): same times. non-trivial = at least one alarm has a TRIGGER.")
